@@ -114,5 +114,39 @@ add("C20", "TestC20", "exploration",
     "Before/after snapshots and a differential against a pristine twin: NewSlimTrie leaves keys, values and the Opt struct (pointer identities and pointees) unchanged, also for rejected input; Unmarshal leaves its input buffer unchanged and overwriting the buffer afterwards changes no answer (lookups on Q(keys), scans, Stat, String, Marshal); overwriting Marshal output changes neither later answers nor later Marshal output; two Marshal results do not share memory.",
     "Trusted: legacy writers for the legacy layouts.", "snapshot + differential property-based testing (rapid)", "DESIGN.md §4 C20")
 
+add("C12", "TestC12", "exploration",
+    dict(cases=3000, shards=4), dict(cases=150000, shards=16, timeout_s=3000),
+    "sorted record sets (keys K1..K7/Krand with arbitrary bytes, distinct payloads), either one strictly increasing offset per key (Get) or block offsets with block size 2..64 and drawn gaps (RangeGet); reader = map offset -> block that returns a record only when the key is in that block; queries = all keys and Q(keys); non-trivial = the reader had to reject at least one lookup (the underlying trie returned an offset for an absent key)",
+    "Generated-input search against an exact map model: every indexed key returns its own record, every other string is not found.",
+    "Trusted: the verifying reader written in the harness.", RAPID.replace("sorted-map", "map"), "DESIGN.md §4 C12")
+
+add("C15", "TestC15", "exploration",
+    dict(cases=4000, shards=4, extra=[dict(test="TestC15Exhaustive", shards=4)]),
+    dict(cases=200000, shards=16, timeout_s=3000, extra=[dict(test="TestC15Exhaustive", shards=16, timeout_s=3000)]),
+    "exhaustive: all 2^8 I8 and 2^16 I16/U16 values (x junk suffixes); I32/U32: all 2^32 values in the thorough tier, a dense boundary-biased sample (5 x 2^16 per codec) in quick; I64/U64/Int: every 2^k, 2^k+-1 and negations; rapid: random 64-bit values, String16 of lengths {0,1,2,255,256,257,65534,65535} and random, Bytes{Size} for sizes 1..16/255/256/4096/65536, TypeEncoder over three fixed-size struct types with nested arrays in both byte orders, Dummy (sizes only); with and without trailing junk; non-trivial = value with the top bit set or length >= 256",
+    "Round trip + size agreement + independent layout: Encode(v) must equal a hand-written reference encoding (shifts, no encoding/binary: little-endian two's complement; configured order field by field for TypeEncoder; big-endian 16-bit length + bytes for String16), GetSize(v) == len == GetEncodedSize(enc ++ junk), Decode(enc ++ junk) = (len, v).",
+    "Trusted: the hand-written reference encoders in the harness. Dummy is checked for sizes only (it documents that Decode returns nil).",
+    "exhaustive enumeration of small integer domains + property-based testing (rapid) with an independent reference encoder", "DESIGN.md §4 C15")
+
+add("C16", "TestC16", "exploration",
+    dict(cases=4000, shards=4), dict(cases=200000, shards=16, timeout_s=3000),
+    "ascending index sets in [0, 2^20) (empty, single, dense runs, sparse, clusters separated by empty 64-bit words, word-boundary indexes) x element kinds U16/U32/U64/I16/I32/I64 (edge and random values) and a fixed-size struct via array.New; probes = every index of the span when span <= 4096, else listed +-1, word boundaries and drawn; 1/3 invalid inputs (equal/descending neighbours at a drawn position, length off by 1..5); non-trivial = an empty bitmap word between populated words (or an invalid input)",
+    "Generated-input search against a map[int32]T model: typed Get, raw GetBytes and generic Get agree with the model at every probe within the bitmap span, also after proto.Marshal -> proto.Unmarshal into the typed type and into array.NewEmpty(T); invalid input is rejected with the dedicated error, builds nothing, and a rejected Init leaves an existing array unchanged.",
+    "Trusted: the map model. Probes beyond the bitmap span are not claimed (accessors index out of range there by design).",
+    RAPID.replace("sorted-map", "map[int32]T"), "DESIGN.md §4 C16")
+
+add("C17", "TestC17", "exploration",
+    dict(cases=800, shards=4), dict(cases=20000, shards=16, timeout_s=3000),
+    "default options, no values; shapes: binary caterpillars with a step at every node, fan-out-11 byte nodes, per-node random label bitmaps, long keys (K4, up to 16 KiB), counters, byte fan-out, random bytes, K1, K2; n up to 10^4 (quick) / 10^5 (thorough); two drawn non-empty prefixes P1, P2 of 1 B..8 KiB; non-trivial = n >= 100 with >= n/4 steps, or a prefix >= 1 KiB",
+    "Numeric bound len(Marshal()) <= 8n + 256, and metamorphic relation on prepending a common prefix: |size(P1+K) - size(P2+K)| <= 8 and |size(P+K) - size(K)| <= 24 + r, where r is the number of entries of the inner-prefix rank index (adding a step to a root that had none shifts every rank entry; varint growth can add a byte per entry).",
+    "The tolerance r is read from the exported protobuf message of the built trie.", "metamorphic + bound property-based testing (rapid)", "DESIGN.md §4 C17")
+
+add("C11", "TestC11", "exploration",
+    dict(cases=64, shards=4, timeout_s=900), dict(cases=3200, shards=16, timeout_s=3000),
+    "a trie (fresh / reloaded / loaded from a generated legacy stream; half Complete, half any mode) shared by 2..32 goroutines, each with a drawn list of 20..120 read operations (Get, GetID, RangeGet, Search, typed getter, ScanFrom, ScanFromTo, two interleaved iterators per goroutine stepped k times, Stat, String, Marshal) with drawn runtime.Gosched() points, GOMAXPROCS drawn from {1,2,16}; built with -race; non-trivial = >= 2 goroutines that each mix scans/iterators and lookups on a trie with stored inner prefixes",
+    "Differential + race detector: every operation's result under concurrency must equal the result of the same operation executed alone beforehand in the same binary; the race detector (halt_on_error) must stay silent; single-threaded lookups (and scans on Complete tries) must not panic in the instrumented build. Schedules are sampled by the Go scheduler, not enumerated.",
+    "Trusted: the Go race detector (happens-before based: it flags an unsynchronised conflicting pair when both accesses execute concurrently, largely independent of the exact interleaving). A corruption that needs one specific interleaving AND is invisible to the race detector (e.g. through sync/atomic) is out of reach.",
+    "randomized concurrent read workloads (rapid-generated) under the Go race detector, differential against sequential execution", "DESIGN.md §4 C11", race=True)
+
 json.dump(T, open("props.json", "w"), indent=1, sort_keys=True)
 print(len(T), "properties")
